@@ -252,9 +252,10 @@ theorem elim_progress {votes : Profile} {cfg : Cfg} {n : Nat} (hh : TotalHyp cfg
       have hl : (totalsInPlay st.alloc).length = (continuing st.alloc).length := by
         rw [← keys_totalsInPlay, List.length_map]
       omega
-    have hnp : noProgress st { alloc := a2, elected := [],
-        eliminated := ((totalsInPlay st.alloc).map (·.1)).filter (fun c => decide (c ∉ retained)),
-        shortcut := false } = false := by
+    have hnp : noProgress st
+        { alloc := a2, elected := [],
+          eliminated := ((totalsInPlay st.alloc).map (·.1)).filter (fun c => decide (c ∉ retained)),
+          shortcut := false } = false := by
       simp only [noProgress, decide_true, Bool.true_and, Bool.false_eq_true, if_false, decide_eq_false_iff_not]
       intro h0; rw [h0] at hel1; simp at hel1
     rw [countStep_of_next_ok (inp := selectorInput votes n) hne hnext hnp]
@@ -265,5 +266,224 @@ theorem elim_progress {votes : Profile} {cfg : Cfg} {n : Nat} (hh : TotalHyp cfg
     · simp only [advance]; omega
     · simp only [advance, seatsAdd, List.foldl_nil]; exact hle
     · simp only [advance, seatsAdd, List.foldl_nil]; omega
+
+
+/-- with one seat per candidate at most, an election by quota never awards more than the open seats -/
+theorem electByQuota_sum_le {eq : Bool} {q : Rat} {nRem : Nat} {prev maxS : Seats} {tp : Votes} {el : Seats}
+    (h : electByQuota eq q nRem prev maxS tp = .ok el)
+    (hone : ∀ x ∈ quotaMultiples eq q prev maxS tp, x.2.1 = 1)
+    (hnd : ((quotaMultiples eq q prev maxS tp).map (·.1)).Nodup) (hr : 1 ≤ nRem) : sumSeats el ≤ nRem := by
+  unfold electByQuota at h
+  simp only at h
+  split at h
+  · -- over-award: keep the `nRem` best overcounts
+    obtain ⟨h1, h2⟩ := correctOvercount_spec h
+    have hones : ∀ p ∈ el, p.2 = 1 := by
+      intro p hp
+      obtain ⟨x, hx, _, hpos, hle⟩ := h1 p hp
+      have := hone x hx
+      omega
+    rw [sumSeats_of_ones hones]
+    unfold correctOvercount at h
+    simp only at h
+    split at h
+    · cases h
+    · injection h with h
+      have hkeys : ∀ c ∈ el.map (·.1), c ∈ slotCands (getNBest
+          ((quotaMultiples eq q prev maxS tp).map (fun x => (x.1, x.2.2))) nRem) := by
+        intro c hc
+        obtain ⟨p, hp, rfl⟩ := List.mem_map.mp hc
+        rw [← h] at hp
+        obtain ⟨x, hx, hf⟩ := List.mem_filterMap.mp hp
+        split at hf
+        · rename_i hin
+          injection hf with hf; rw [← hf]; exact hin
+        · split at hf
+          · rename_i hgt
+            have := hone x hx
+            omega
+          · cases hf
+      have hlen := length_le_of_nodup_subset (List.Nodup.sublist h2 hnd) hkeys
+      rw [List.length_map] at hlen
+      exact le_trans hlen (le_trans (slotCands_length_le _) (getNBest_length_le _ hr))
+  · rename_i hle
+    injection h with h
+    subst h
+    have : sumSeats ((quotaMultiples eq q prev maxS tp).map (fun x => (x.1, x.2.1))) =
+        ((quotaMultiples eq q prev maxS tp).map (·.2.1)).sum := by
+      simp [sumSeats, List.map_map, Function.comp_def]
+    rw [this]; omega
+
+theorem step_progress {votes : Profile} {cfg : Cfg} {n : Nat} (hh : TotalHyp cfg votes n) {st : St}
+    (hi : StInv cfg (selectorInput votes n) st) (hj : ShapeInv votes st) (hfin : st.final = false)
+    (hlt : sumSeats st.seats < n) (hm : n - sumSeats st.seats ≤ (continuing st.alloc).length) :
+    Progress n st (countStep gregory cfg (selectorInput votes n) st) := by
+  have hk := hi.keys hfin
+  have hsub : ∀ c ∈ continuing st.alloc, c ∈ allRanked votes := hi.cont_sub
+  have hcnd : (continuing st.alloc).Nodup := continuing_nodup hk
+  have hdisj : ∀ c ∈ continuing st.alloc, c ∉ st.seats.map (·.1) := by
+    intro c hc hmm
+    obtain ⟨p, hp, rfl⟩ := List.mem_map.mp hmm
+    exact hj.disj p hp hc
+  have hne : sumSeats st.seats ≠ n := by omega
+  have hle : sumSeats st.seats ≤ n := by omega
+  have hsc := shortcutCond_selector (n := n) hh.mand hsub hdisj
+  by_cases hmr : (continuing st.alloc).length = n - sumSeats st.seats
+  · -- as many candidates as seats: all remaining are elected
+    have hs : shortcutCond cfg st.alloc n st.seats ((allRanked votes).map (fun c => (c, 1))) = true := by
+      rw [hsc]; simp [hmr]
+    have hnext := nextCount_of_shortcut (E := gregory) (total := totalVotes votes) (ds := st.draws) hle hs
+    have hall : electAll st.alloc st.seats ((allRanked votes).map (fun c => (c, 1))) st.draws =
+        .ok ({ alloc := [], elected := ((sortDesc (totalsInPlay st.alloc)).map (·.1)).map (fun c => (c, 1)),
+               eliminated := [], shortcut := true }, st.draws) := by
+      unfold electAll
+      rw [availSeats_selector hsub hdisj]
+      simp [List.map_map, Function.comp_def]
+    rw [hall] at hnext
+    have hnp : noProgress st
+        { alloc := [], elected := ((sortDesc (totalsInPlay st.alloc)).map (·.1)).map (fun c => (c, 1)),
+          eliminated := [], shortcut := true } = false := by
+      simp only [noProgress, Bool.and_eq_false_imp, decide_eq_true_eq]
+      intro h0
+      have := congrArg List.length h0
+      rw [List.length_map, sortedKeys_length] at this
+      simp at this
+      omega
+    rw [countStep_of_next_ok (inp := selectorInput votes n) hne hnext hnp]
+    exact .done _ rfl
+  · have hs : shortcutCond cfg st.alloc n st.seats ((allRanked votes).map (fun c => (c, 1))) = false := by
+      rw [hsc]; simp [hmr]
+    have hmgt : n - sumSeats st.seats < (continuing st.alloc).length := by omega
+    have hnext := nextCount_of_proper (E := gregory) (total := totalVotes votes) (ds := st.draws) hle hs
+    cases hq : computeQuota cfg (totalVotes votes) n with
+    | none =>
+      have : countProper gregory cfg st.alloc n (totalVotes votes) st.seats
+          ((allRanked votes).map (fun c => (c, 1))) st.draws = afterElimination gregory st.alloc cfg.step st.draws := by
+        unfold countProper; rw [hq]
+      rw [this] at hnext
+      exact elim_progress hh hk hne hle hmgt hnext
+    | some qv =>
+      have hpos := hh.qpos qv hq
+      cases hel : electByQuota cfg.acceptEqual qv (n - sumSeats st.seats) st.seats
+          ((allRanked votes).map (fun c => (c, 1))) (totalsInPlay st.alloc) with
+      | error e =>
+        have he := electByQuota_err hel
+        subst he
+        have : countProper gregory cfg st.alloc n (totalVotes votes) st.seats
+            ((allRanked votes).map (fun c => (c, 1))) st.draws = .error .notImplemented := by
+          unfold countProper; rw [hq]; simp only [if_neg (not_le.mpr hpos), hel]
+        rw [this] at hnext
+        rw [countStep_of_next_err (inp := selectorInput votes n) hne hnext]
+        exact .refuse
+      | ok el =>
+        by_cases hel0 : el = []
+        · have : countProper gregory cfg st.alloc n (totalVotes votes) st.seats
+              ((allRanked votes).map (fun c => (c, 1))) st.draws =
+              afterElimination gregory st.alloc cfg.step st.draws := by
+            unfold countProper; rw [hq]; simp only [if_neg (not_le.mpr hpos), hel, hel0, if_true]
+          rw [this] at hnext
+          exact elim_progress hh hk hne hle hmgt hnext
+        · -- somebody holds the quota
+          obtain ⟨hnd, hfacts⟩ := election_facts hk hpos hel
+          have hone : ∀ ck ∈ el, ck.2 = 1 := by
+            intro ck hck
+            obtain ⟨hcont, h1, _, hmax⟩ := hfacts ck hck
+            have := hmax 1 (maxGet_selector (hsub _ hcont))
+            omega
+          -- the subtraction goes through: every elected pile holds a positive quota
+          have hsubok := gregory_subtract_ok (a := st.alloc) st.draws
+            (els := el.map (fun ck => (ck.1, (ck.2 : Rat) * qv)))
+            (by simpa [List.map_map, Function.comp_def] using hnd)
+            (by
+              intro x hx
+              obtain ⟨ck, hck, rfl⟩ := List.mem_map.mp hx
+              obtain ⟨_, h1, h2, _⟩ := hfacts ck hck
+              have : (0 : Rat) < (ck.2 : Rat) * qv := mul_pos (by exact_mod_cast h1) hpos
+              unfold totalOf at h2
+              simp only
+              linarith)
+          obtain ⟨a1, hsub1⟩ := hsubok
+          obtain ⟨a2, htr⟩ := gregory_transferIf_ok a1
+            (fullyElected el st.seats ((allRanked votes).map (fun c => (c, 1)))) st.draws
+          have hout : afterElection gregory st.alloc el qv st.seats ((allRanked votes).map (fun c => (c, 1))) st.draws =
+              .ok ({ alloc := a2, elected := el,
+                     eliminated := fullyElected el st.seats ((allRanked votes).map (fun c => (c, 1))),
+                     shortcut := false }, st.draws) := by
+            unfold afterElection; simp only [hsub1, htr]
+          have : countProper gregory cfg st.alloc n (totalVotes votes) st.seats
+              ((allRanked votes).map (fun c => (c, 1))) st.draws =
+              afterElection gregory st.alloc el qv st.seats ((allRanked votes).map (fun c => (c, 1))) st.draws := by
+            unfold countProper; rw [hq]; simp only [if_neg (not_le.mpr hpos), hel, hel0, if_false]
+          rw [this, hout] at hnext
+          have hnp : noProgress st
+              { alloc := a2, elected := el,
+                eliminated := fullyElected el st.seats ((allRanked votes).map (fun c => (c, 1))),
+                shortcut := false } = false := by
+            simp [noProgress, hel0]
+          have hstep := countStep_of_next_ok (inp := selectorInput votes n) hne hnext hnp
+          rw [hstep]
+          -- bookkeeping
+          have hs := subtract_spec gregory_ok hsub1
+          have hmv := transferIf_moved gregory_ok htr
+          have hc1 : continuing a1 = continuing st.alloc := by rw [continuing_eq, continuing_eq, hs.keys_eq]
+          have hadd : seatsAdd st.seats el = st.seats ++ el :=
+            seatsAdd_of_disjoint hnd (fun p hp => hdisj _ (hfacts p hp).1)
+          have hsum : sumSeats (seatsAdd st.seats el) = sumSeats st.seats + el.length := by
+            rw [sumSeats_seatsAdd, sumSeats_of_ones hone]
+          -- exactly the elected leave
+          have hfe : ∀ c, c ∈ fullyElected el st.seats ((allRanked votes).map (fun c => (c, 1))) ↔ c ∈ el.map (·.1) := by
+            intro c
+            constructor
+            · intro hc
+              unfold fullyElected at hc
+              obtain ⟨ck, hck, rfl⟩ := List.mem_map.mp hc
+              exact List.mem_map.mpr ⟨ck, (List.mem_filter.mp hck).1, rfl⟩
+            · intro hc
+              obtain ⟨ck, hck, rfl⟩ := List.mem_map.mp hc
+              unfold fullyElected
+              refine List.mem_map.mpr ⟨ck, List.mem_filter.mpr ⟨hck, ?_⟩, rfl⟩
+              rw [maxGet_selector (hsub _ (hfacts ck hck).1)]
+              have hadd2 : seatsAdd el st.seats = el ++ st.seats := by
+                apply seatsAdd_of_disjoint hj.nd
+                intro p hp hmm
+                obtain ⟨ck', hck', he⟩ := List.mem_map.mp hmm
+                exact hj.disj p hp (he ▸ (hfacts ck' hck').1)
+              have hck1 : (ck.1, 1) ∈ el := by
+                have : ck = (ck.1, 1) := Prod.ext rfl (hone ck hck)
+                rw [← this]; exact hck
+              rw [hadd2, seatsGet_append_of_mem hnd hck1]
+              simp
+          have hcl : (continuing a2).length = (continuing st.alloc).length - el.length := by
+            rw [hmv.cont_eq, hc1]
+            have hcongr : (continuing st.alloc).filter
+                (fun c => decide (c ∉ fullyElected el st.seats ((allRanked votes).map (fun c => (c, 1))))) =
+                (continuing st.alloc).filter (fun c => decide (c ∉ el.map (·.1))) := by
+              apply List.filter_congr; intro x _; simp only [hfe x]
+            rw [hcongr, length_filter_not_mem hcnd hnd
+              (by intro x hx; obtain ⟨ck, hck, rfl⟩ := List.mem_map.mp hx; exact (hfacts ck hck).1), List.length_map]
+          have hell : el.length ≤ n - sumSeats st.seats := by
+            have hqm1 : ∀ x ∈ quotaMultiples cfg.acceptEqual qv st.seats ((allRanked votes).map (fun c => (c, 1)))
+                (totalsInPlay st.alloc), x.2.1 = 1 := by
+              intro x hx
+              obtain ⟨t, ht, h1, _, hmax⟩ := mem_quotaMultiples hpos hx
+              have hxc : x.1 ∈ continuing st.alloc := by
+                rw [← keys_totalsInPlay]; exact List.mem_map.mpr ⟨(x.1, t), ht, rfl⟩
+              have := hmax 1 (maxGet_selector (hsub _ hxc))
+              omega
+            have hqmnd : ((quotaMultiples cfg.acceptEqual qv st.seats ((allRanked votes).map (fun c => (c, 1)))
+                (totalsInPlay st.alloc)).map (·.1)).Nodup :=
+              List.Nodup.sublist (quotaMultiples_keys_sublist _ _ _ _ _)
+                (keys_nodup_of_sortDesc (by rw [keys_totalsInPlay]; exact hcnd))
+            have := electByQuota_sum_le hel hqm1 hqmnd (by omega)
+            rw [sumSeats_of_ones hone] at this
+            exact this
+          have hel1 : 1 ≤ el.length := by
+            cases el with
+            | nil => exact absurd rfl hel0
+            | cons _ _ => simp
+          refine .on _ rfl ?_ ?_ ?_
+          · simp only [advance]; omega
+          · simp only [advance, hsum]; omega
+          · simp only [advance, hsum]; omega
 
 end VL.STV
